@@ -932,9 +932,7 @@ theorem valNfEq_refl : ∀ (f : Field) (obj : GoVal), RTOK f obj → valNfEq f (
       intro kv hkv
       have := lookup_of_mem_nodup _ kv.1 kv.2 hnd hkv
       simp only [this]
-      have hp := primNfEq_refl info kv.2 (hv kv hkv)
-      rw [hnn] at hp
-      exact hp
+      exact primNfEq_refl info kv.2 (hv kv hkv)
     | objectMap =>
       simp only [hk] at h ⊢
       obtain ⟨_, _, hnd, hv⟩ := h
